@@ -954,3 +954,8 @@ mod tests {
         assert_eq!(context.first_context_data().unwrap().total_coeff_modulus[0], 1084081);
     }
 }
+
+// Verification hook (add-only): compiled only under `cargo kani` or `--cfg heathcliff_verif`.
+#[cfg(any(kani, heathcliff_verif))]
+#[path = "/verif/incrate/context_v.rs"]
+pub(crate) mod verif_v;
